@@ -17,7 +17,7 @@ import os, sys, importlib
 
 WIDTHS_SAFE = [1, 1, 2, 3, 4, 8, 8, 12, 16, 24, 31]
 WIDTHS_WILD = WIDTHS_SAFE + [32, 33, 64]
-REFUSE_KINDS = ['for', 'while', 'call', 'chained-compare', 'tuple-target', 'float-const', 'ternary-in-call', 'list-literal',
+REFUSE_KINDS = ['for', 'while', 'call', 'chained-compare', 'tuple-target', 'float-const', 'list-literal',
                 'pow', 'truediv', 'subscript', 'lambda', 'string-const', 'is-compare', 'unary-plus', 'walrus', 'return-value',
                 'nested-def', 'aug-tuple', 'in-compare',
                 # match patterns other than a literal value / `_` : no PySyntax constructor exists for them
@@ -110,10 +110,10 @@ class G:
             self.tags.add('unary-value')
             return r.choice([f'(~{self.value(d - 1)} & {r.choice([255, 65535])})' if self.wild else f'(not {self.cond(d - 1)})',
                              f'(not {self.cond(d - 1)})'])
+        if k < 92:
+            self.tags.add('ternary')
+            return f'({self.value(d - 1)} if {self.cond(d - 1)} else {self.value(d - 1)})'
         if self.wild:
-            if k < 92:
-                self.tags.add('ternary')
-                return f'({self.value(d - 1)} if {self.cond(d - 1)} else {self.value(d - 1)})'
             if k < 95:
                 self.tags.add('bool-value')
                 return f'({self.value(d - 1)} {r.choice(["or", "and"])} {self.value(d - 1)})'
@@ -267,7 +267,6 @@ def refuse_snippet(kind, rng, g):
         'chained-compare': [f'if 1 < {a} < 5:', f'    {o}.{wr}(1)'],
         'tuple-target': [f'x, y = {a}, 2', f'{o}.{wr}(x + y)'],
         'float-const': [f'{o}.{wr}({a} + 1.5)'],
-        'ternary-in-call': [f'{o}.{wr}(1 if {a} > 2 else 3)'],
         'list-literal': [f'x = [1, 2, 3]', f'{o}.{wr}(x[0])'],
         'pow': [f'{o}.{wr}({a} ** 2)'],
         'truediv': [f'{o}.{wr}({a} / 2)'],
@@ -339,13 +338,13 @@ AST_KINDS = {
     'Continue': ('nested-only', 'While'),
     # expressions
     'BoolOp': ('subset', ''), 'NamedExpr': ('refuse', ['walrus']), 'BinOp': ('subset', ''), 'UnaryOp': ('subset', ''), 'Lambda': ('refuse', ['lambda']),
-    'IfExp': ('subset', 'accepted, mistranslated: finding C02-ternary-not-verilog; inside a call: ternary-in-call'), 'Dict': ('refuse', ['dict']),
+    'IfExp': ('subset', '`((c) ? a : b)` since /repo 760fbc8, also inside a call'), 'Dict': ('refuse', ['dict']),
     'Set': ('refuse', ['set']), 'ListComp': ('refuse', ['listcomp']), 'SetComp': ('refuse', ['setcomp']), 'DictComp': ('refuse', ['dictcomp']),
     'GeneratorExp': ('refuse', ['genexp']), 'Await': ('nested-only', 'AsyncFunctionDef'), 'Yield': ('refuse', ['yield']),
     'YieldFrom': ('refuse', ['yieldfrom']), 'Compare': ('subset', 'single comparison; chained: chained-compare'),
     'Call': ('subset', 'w.get() / w.put(e) / w.prepare(e) / getParameterValue / print / ord; others: call, other-call, call-keyword'),
     'FormattedValue': ('nested-only', 'JoinedStr'), 'JoinedStr': ('refuse', ['fstring']),
-    'Constant': ('subset', 'int / bool (str as docstring); float: float-const, str: string-const'), 'Attribute': ('subset', 'self.x'),
+    'Constant': ('subset', 'int / bool (str as docstring); float: float-const (refused since /repo 61df158), str: string-const'), 'Attribute': ('subset', 'self.x'),
     'Subscript': ('refuse', ['subscript']), 'Starred': ('refuse', ['starred']), 'Name': ('subset', ''), 'List': ('refuse', ['list-literal']),
     'Tuple': ('refuse', ['tuple-target', 'tuple-value']), 'Slice': ('nested-only', 'Subscript'),
     # operators
@@ -415,7 +414,20 @@ def gen_class(rng, idx, profile, refuse_kind=None):
         L.append(f"        self.{g.attr_of[n]} = self.addOut('{n}', {n})")
     for n, _ in g.consts:
         L.append(f'        self.{n} = {n}')
-    for n, v in g.state:
+    init_lines = [(n, v) for n, v in g.state]
+    if g.state and rng.chance(1, 3):
+        # the constructor assigns some state attribute two or three times (interleaved with the others): the constructed object
+        # holds the LAST constant, and so must the emitted `initial` block
+        g.tags.add('multi-init')
+        final = dict(g.state)
+        init_lines = []
+        for n, v in g.state:
+            k = rng.choice([1, 2, 2, 3])
+            for j in range(k - 1):
+                init_lines.append((n, rng.choice([x for x in (0, 1, 2, 3, 5, 9, 77, 100) if x != final[n]])))
+        init_lines = rng.shuffle(init_lines) + [(n, v) for n, v in rng.shuffle(g.state)]
+        # keep declaration (first-assignment) order arbitrary but the LAST assignment of every name = its final value
+    for n, v in init_lines:
         L.append(f'        self.{n} = {v}')
     if refuse_kind == 'subscript':
         pass
